@@ -33,6 +33,19 @@ theorem layout_faithful_prefix (s : TyShape) (v : Val) (rest : List Nat) (hs : c
     idlDecode (typeToIdl s) (encode s v ++ rest) = some (v, (encode s v).length) :=
   faithful s v rest hv (Or.inl hs)
 
+/-- **Hidden tail (`#[type_to_idl(skip)]`).** The IDL of a struct whose field `k` is marked `skip`
+describes the first `k` fields; decoding the serializer output of the WHOLE struct with it returns
+exactly the values of those fields and the length of their encoding — the IDL is a faithful
+description of a prefix of the real layout (never of a layout with a hole in it). -/
+theorem layout_faithful_skip (pre post : List TyShape) (vpre vpost : List Val)
+    (hc : closedAll pre = true) (hw : wfFields pre vpre = true) :
+    idlDecode (typeToIdlSkip (pre ++ post) pre.length) (encode (.struct (pre ++ post)) (.seq (vpre ++ vpost)))
+      = some (.seq vpre, (encode (.struct pre) (.seq vpre)).length) := by
+  have h := layout_faithful_prefix (.struct pre) (.seq vpre) (encodeFields post vpost)
+    (by simpa [closed] using hc) (by simpa [wfVal] using hw)
+  simp only [typeToIdlSkip, List.take_left', encode, encodeFields_append pre post vpre vpost hw]
+  simpa [typeToIdl, encode] using h
+
 /-- **Accounts faithfulness.** For every account-set shape built from the framework's blocks
 (modifiers over single accounts, `Program`/`Sysvar`, `Option`, arrays, `Vec`/`Rest`, `Box`, nested
 derived structs), the flattened account list read off the emitted IDL equals the metas the client
@@ -119,6 +132,12 @@ example : WF (.struct [some "payer", some "prog", some "acct"]
     [.mutable true (.signer true .info), .fixed [1], .opt (.init (.signer true .info))]) = true := by decide
 example : flatten [9] false (setToIdl (.struct [none, none] [.opt .info, .fixed [9]]))
     = [placeholder, ⟨false, false, .self⟩] := by decide
+/-- skip in the middle: `{version: u8, #[skip] reserved: u16, limit: u32}` -/
+example : typeToIdlSkip [.int 1 false, .int 2 false, .int 4 false] 1 = .struct [.u8] := by decide
+/-- `Many` followed by a plain account is refused, never reordered -/
+example : lowerDef (.struct [some "vaults", some "authority"] [.many (.single { writable := true }) 2 (some 2), .single { signer := true }])
+    = .error .manyNotLast := by
+  simp [lowerDef, lowerFields, lowerField]
 example : discToUsize [7] = .ok 7 ∧ discToUsize [1, 0] = .error () ∧ discToUsize [] = .ok 0 := by
   refine ⟨?_, ?_, ?_⟩ <;> simp [discToUsize, rdLE]
 /-- a lowering that succeeds: one account, one remaining-accounts entry -/
